@@ -24,8 +24,8 @@ def sh(cmd,cwd,timeout):
     except subprocess.TimeoutExpired:
         return 124,"TIMEOUT"
 def worker(i):
-    d=f"/tmp/ms/w{i}"
-    shutil.rmtree(d,ignore_errors=True); os.makedirs("/tmp/ms",exist_ok=True)
+    base=os.environ.get("MUTS_DIR","/tmp/ms"); d=f"{base}/w{i}"
+    shutil.rmtree(d,ignore_errors=True); os.makedirs(base,exist_ok=True)
     subprocess.run(f"rsync -a --exclude .git /repo/ {d}/",shell=True,check=True)
     while True:
         try: m=q.get_nowait()
@@ -43,10 +43,12 @@ def worker(i):
                 if rules or rc!=0:
                     res["status"]="DETECTED"; res["rules"]=rules
                     if not rules: res["out"]=out[-400:]
+                elif os.environ.get("MUTS_NOSUITE"):
+                    res["status"]="UNDETECTED"
                 else:
-                    rc1,o1=sh("go test -vet=off -count=1 -timeout 180s . ./internal/...",d,400)
+                    rc1,o1=sh("go test -vet=off -count=1 -timeout 60s . ./internal/...",d,150)
                     if rc1==0:
-                        rc2,o2=sh("go test -vet=off -count=1 -tags debug -timeout 180s . ./internal/...",d,400)
+                        rc2,o2=sh("go test -vet=off -count=1 -tags debug -timeout 60s . ./internal/...",d,150)
                     else: rc2=None
                     if rc1==0 and rc2==0: res["status"]="SURVIVED"
                     else:
